@@ -1,6 +1,7 @@
 import IpcHub.Drv.Util
 import IpcHub.Model.PullInst
 import IpcHub.Spec.Pull
+import IpcHub.Model.RegistryLts
 namespace IpcHub.Drv.C20
 open IpcHub.Drv IpcHub.Pull IpcHub.PullSpec
 
@@ -129,6 +130,16 @@ def handle : List String → String
         s!"model={model} verdict={verdict cfg script o}"
       | _, _ => s!"model={model} verdict=bad-observation"
     | _, _, _ => "bad-op"
+  | ["dual"] =>
+    -- two pulls whose handshakes succeeded register fresh streams 0 and 1 for one path; the racy
+    -- schedule of the harness (first Regist paused after its Load) under the source's locking fact
+    let s : IpcHub.Registry.Stream := { path := ['/', 'd'], status := .ok, rtp := [], flv := [], seed := 0, hls := none }
+    let st0 : IpcHub.Registry.State := { streams := [s, s], reg := [], tasks := [], now := 0 }
+    let c := IpcHub.RegistryLts.runSched IpcHub.Gen.pullRegistLocked
+               (IpcHub.RegistryLts.initC st0 [.regist 0, .regist 1]) IpcHub.RegistryLts.pauseSchedule
+    let live := (if IpcHub.Registry.isOk c.st 0 then 1 else 0) + (if IpcHub.Registry.isOk c.st 1 then 1 else 0)
+    let reg := (IpcHub.Registry.load c.st.reg ['/', 'd']).isSome
+    s!"model=live={live};registered={boolStr reg}"
   | _ => "bad-op"
 
 end IpcHub.Drv.C20
